@@ -396,6 +396,14 @@ func main() {
 	}
 }
 
+// evidenceDir is /verif/evidence unless VERIF_EVIDENCE_DIR redirects it (exploratory background runs)
+func evidenceDir() string {
+	if d := os.Getenv("VERIF_EVIDENCE_DIR"); d != "" {
+		return d
+	}
+	return filepath.Join(verifDir, "evidence")
+}
+
 func firstLines(s string, n int) string {
 	l := strings.Split(s, "\n")
 	if len(l) > n {
@@ -458,8 +466,8 @@ func writeEvidence(prop, tier string, seed uint64, r *engine.Result, violations,
 		"violations": violations,
 	}
 	b, _ := json.MarshalIndent(ev, "", " ")
-	os.MkdirAll(filepath.Join(verifDir, "evidence"), 0o755)
-	if err := os.WriteFile(filepath.Join(verifDir, "evidence", prop+".json"), b, 0o644); err != nil {
+	os.MkdirAll(evidenceDir(), 0o755)
+	if err := os.WriteFile(filepath.Join(evidenceDir(), prop+".json"), b, 0o644); err != nil {
 		broken("cannot write evidence: %v", err)
 	}
 }
